@@ -153,6 +153,12 @@ func (c *MapCodec) Read(data []byte, ptr unsafe.Pointer, wt plenccore.WireType) 
 	if n <= 0 {
 		return 0, fmt.Errorf("failed to read map size")
 	}
+	// Each entry takes at least one byte (its length), so a count that's larger
+	// than the remaining data is corrupt. Checking this also stops corrupt data
+	// making us allocate an enormous map.
+	if count > uint64(len(data)-n) {
+		return 0, fmt.Errorf("map size %d exceeds the data available", count)
+	}
 
 	// ptr is a pointer to a map pointer
 	if *(*unsafe.Pointer)(ptr) == nil {
@@ -173,6 +179,9 @@ func (c *MapCodec) Read(data []byte, ptr unsafe.Pointer, wt plenccore.WireType) 
 			return 0, fmt.Errorf("failed to read map entry length")
 		}
 		offset += n
+		if entryLength > uint64(len(data)-offset) {
+			return 0, fmt.Errorf("map entry length %d exceeds the data available", entryLength)
+		}
 		n, err := c.readMapEntry(mp, k, data[offset:offset+int(entryLength)])
 		if err != nil {
 			return 0, err
